@@ -3,6 +3,7 @@ import Spec.C02
 import Proofs.Splice
 import Proofs.Layout
 import Proofs.LineShape
+import Proofs.LayoutBin
 /-! C02 — property theorems. -/
 namespace Props.C02
 open Cfi Cfi.Text Spec.C02
@@ -219,5 +220,30 @@ theorem line_spans (fs : List Field) (vs : List Val) (rs : List (List Char))
 example : fits (Field.mk' .int 5 3) (.int (-42)) = true ∧
     (Field.mk' .int 5 3).writeText (.int (-42)) "abcdefghijkl".toList = .ok "abc  -42ijkl".toList ∧
     (Field.mk' .lit 4 6).writeText (.str "xy".toList) "ab".toList = .ok "ab    xy  ".toList := by decide
+
+end Props.C02
+
+/-! ### binary lines -/
+namespace Props.C02
+open Cfi Cfi.Text Spec.C02
+
+/-- **Binary line shape**: a written binary line is exactly as long as the
+furthest field end (no terminator) and every byte outside the fields is 0x20. -/
+theorem line_bin_shape (fs : List Field) (vs : List Val) (rs : List (List UInt8))
+    (hlen : fs.length = vs.length)
+    (hr : All2 (fun (fv : Field × Val) r => rendersToBin fv.1 fv.2 r) (fs.zip vs) rs)
+    (out : List UInt8) (hw : writeBinLine fs vs = .ok out) :
+    out.length = maxEnd fs ∧ ∀ i, i < maxEnd fs → covered fs i = true ∨ out[i]? = some 32 := by
+  obtain ⟨hgap, hl⟩ := writeFieldsBin_shape fs vs rs hlen hr [] [] out hw (fun i hi => by simp at hi)
+  have hl' : out.length = maxEnd fs := by rw [hl]; rfl
+  exact ⟨hl', fun i hi => by simpa using hgap i (by omega)⟩
+
+/-- **Each field's bytes sit in its own span** of the written binary line -/
+theorem line_bin_spans (fs : List Field) (vs : List Val) (rs : List (List UInt8))
+    (hlen : fs.length = vs.length)
+    (hr : All2 (fun (fv : Field × Val) r => rendersToBin fv.1 fv.2 r) (fs.zip vs) rs)
+    (hdis : Cfi.Disjoint fs) (out : List UInt8) (hw : writeBinLine fs vs = .ok out) :
+    All2 (fun (f : Field) r => slice out f.start f.stop = r) fs rs :=
+  writeFieldsBin_spans fs vs rs hlen hr hdis [] out hw
 
 end Props.C02
